@@ -14,6 +14,7 @@ import (
 	"strings"
 	"sync"
 	"syscall"
+	"time"
 )
 
 // VerifHook, if set, is called at every simulation point (in-process engines).
@@ -82,4 +83,15 @@ func simPoint(point string) {
 		syscall.Kill(os.Getpid(), syscall.SIGKILL)
 		select {} // never proceed past a crash point
 	}
+}
+
+// simNow is the clock that names new migration files. VERIF_NOW=<unix seconds> fixes it for
+// the whole process (the simulator advances it between invocations); unset, it is the wall clock.
+func simNow() time.Time {
+	if v := os.Getenv("VERIF_NOW"); v != "" {
+		if n, err := strconv.ParseInt(v, 10, 64); err == nil {
+			return time.Unix(n, 0)
+		}
+	}
+	return time.Now()
 }
